@@ -14,7 +14,7 @@
 From Coq Require Import List Arith Bool ZArith.
 From VBase Require Import FieldOps.
 From VModel Require Import Stark.
-From VModel Require Enforce EnforceLagrange.
+From VModel Require Enforce EnforceLagrange Polynom.
 Import ListNotations.
 
 Definition P_LAGRANGE : nat := 6.    (* verifier: the Lagrange frame has the wrong shape (index panics of evaluate_numerators) *)
@@ -147,3 +147,8 @@ Definition verify_lag (P : Params) (v : nat) (lc : LagC) (c : Coin) (lcc : F) (p
   end.
 
 End AlgLag.
+
+(* the instance of `interp_pts` used by the instantiated capstone and by the extracted driver: polynom::interpolate(xs, ys, true)
+   of C20's Model/Polynom.v (remove_leading_zeros = true, as both composers call it); `dbg` = debug_assert on the lengths *)
+Definition interp_pts_c20 {F : Type} (O : FOps F) (dbg : bool) (xs ys : list F) : list F :=
+  match Polynom.interpolate O dbg xs ys true with Polynom.Ok p => p | _ => [] end.
